@@ -73,6 +73,7 @@ EvalClause(t, e) ==
   LET S == SetOf(e.set)
       k == Cardinality(S)
   IN IF e.exc # "" THEN "Raised"
+     ELSE IF e.argmut THEN "ArgumentMutated"
      ELSE IF ~(VecOK(t, e.obs) /\ VecOK(t, e.sgn)) THEN "Shape"
      ELSE IF e.off THEN "OnGrid"
      ELSE IF ~AllPositive(e.sgn) THEN "Positive"
@@ -104,6 +105,7 @@ ComplementClause(t, e) ==
       B == SetOf(e.b)
       nobg == \A p \in Pts(t) : e.bg[p] = 0
   IN IF e.exc # "" THEN "Raised"
+     ELSE IF e.argmut THEN "ArgumentMutated"
      ELSE IF ~(VecOK(t, e.wab) /\ VecOK(t, e.wba)) THEN "Shape"
      ELSE IF e.off THEN "OnGrid"
      ELSE IF \E p \in Pts(t) : ~(WeightRangeOK(e.wab[p]) /\ WeightRangeOK(e.wba[p])) THEN "WeightRange"
